@@ -322,7 +322,7 @@ def first_bytes(m: ref.Model, sid: int) -> list[int]:
     return sorted(s)
 
 
-def short_alphabet(m: ref.Model, wide: bool = True) -> list[bytes]:
+def short_alphabet(m: ref.Model, wide: bool = True, two_for_unknown: bool = True) -> list[bytes]:
     """every SID 0x00..0xFF x payloads of length 0..2 (first byte: boundary bytes + every sub-function the
     model knows for that SID, with and without suppress bit; second byte: boundary bytes - for SIDs that neither
     the model nor the ISO format table knows only {00, FF} unless `wide`)."""
@@ -332,7 +332,10 @@ def short_alphabet(m: ref.Model, wide: bool = True) -> list[bytes]:
         fb = first_bytes(m, sid)
         for a in fb:
             out.append(bytes([sid, a]))
-        second = A8 if (wide or sid in m.anywhere or sid in ref.FORMAT_SIDS) else (0x00, 0xFF)
+        known = sid in m.anywhere or sid in ref.FORMAT_SIDS
+        second: tuple[int, ...] = A8 if (wide or known) else (0x00, 0xFF)
+        if not known and not two_for_unknown:
+            second = ()
         for a in fb:
             for b in second:
                 out.append(bytes([sid, a, b]))
